@@ -104,6 +104,8 @@ pub const WRAP_AT: (&str, &str) = ("rule \"r\" ", " { when X == 1 then Y = 1; }"
 pub const WRAP_RV: (&str, &str) = ("rule \"r\" { when X == ", " then Y = 1; }");
 pub const WRAP_RA: (&str, &str) = ("rule \"r\" { when X == 1 then Y = ", "; }");
 pub const WRAP_W: (&str, &str) = ("rule \"r\" { when ", " then Y = 1; }");
+pub const WRAP_WF: (&str, &str) = ("rule \"r\" { when X == 1 then SetWorkflowData(\"", "\"); }");
+pub const WRAP_WG: (&str, &str) = ("rule \"r\" { when X == 1 then set_workflow_data(\"", "\"); }");
 
 /// the fixed facts `evaluate_expression` is driven with (the driver's `vFacts` is the same table): flat keys,
 /// integer corner values, a float, a float zero, strings, a non-numeric variant
@@ -175,7 +177,12 @@ fn run_entry(e: &str, s: &str) -> String {
             Err(_) => "err".into(),
         },
         "G" => match GRLQueryParser::parse(s) {
-            Ok(q) => format!("ok {}", hex(&q.goal)),
+            Ok(q) => format!("ok {} {} {}", hex(&q.goal), q.max_depth, q.max_solutions),
+            Err(_) => "err".into(),
+        },
+        // the twin of `Q`: QueryParser::validate (parse, result dropped)
+        "QV" => match QueryParser::validate(s) {
+            Ok(()) => "ok".into(),
             Err(_) => "err".into(),
         },
         "S" => nomres(parse_stream_pattern(s), spat),
@@ -289,6 +296,17 @@ fn run_entry(e: &str, s: &str) -> String {
             },
             Err(_) => "err".into(),
         },
+        // the SetWorkflowData("key=value") / set_workflow_data(..) branch of parse_action_statement: the one text that is unmasked twice
+        "WF" | "WG" => {
+            let w = if e == "WF" { WRAP_WF } else { WRAP_WG };
+            match GRLParser::parse_rules(&format!("{}{}{}", w.0, s, w.1)) {
+                Ok(rs) => match rs.first().map(|r| r.actions.as_slice()) {
+                    Some([ActionType::SetWorkflowData { key, value }]) if rs.len() == 1 => format!("ok {} {}", hx0(key), val(value)),
+                    _ => format!("ok other{}", rs.len()),
+                },
+                Err(_) => "err".into(),
+            }
+        }
         // extract_module_from_context: <prefix> + one fixed rule through parse_with_modules
         "MC" => match GRLParser::parse_with_modules(&format!("{}{}", s, WRAP_MC)) {
             Ok(p) => {
@@ -309,15 +327,27 @@ fn run_entry(e: &str, s: &str) -> String {
 
 const SEVEN: [&str; 7] = ["R", "M", "Q", "X", "G", "S", "V"];
 /// entries whose observation the Lean model predicts (see Driver/C05.lean)
-const MODELLED: [&str; 24] = [
+const MODELLED: [&str; 27] = [
     "X", "Q", "V", "D", "DC", "G", "GQ", "A", "NH", "NP", "RV", "RA", "S", "SJ", "SC", "SD", "SW", "SS", "ST", "PU", "PN", "AC", "MC",
-    "AT",
+    "AT", "QV", "WF", "WG",
 ];
+/// whole-rule entries without a prediction (oracle only): parse_rules, parse_with_modules, a when clause through parse_rules;
+/// parse_rule on a whole rule is `PU` (predicted `-` as soon as the text contains `rule`)
+const WHOLE: [&str; 4] = ["R", "M", "PU", "W"];
+
+/// a token of `xs`; one in ten is a Unicode white space character or a look-alike separator instead (every alphabet has them)
+fn pick_u<'a>(rng: &mut Rng, xs: &[&'a str]) -> &'a str {
+    if rng.chance(1, 10) {
+        if rng.chance(2, 3) { *rng.pick(&UWS) } else { *rng.pick(&USEP) }
+    } else {
+        *rng.pick(xs)
+    }
+}
 
 fn pick_soup(rng: &mut Rng, toks: &[&str], max: u64, space: bool) -> String {
     let mut s = String::new();
     for _ in 0..rng.range(0, max) {
-        s.push_str(*rng.pick(toks));
+        s.push_str(pick_u(rng, toks));
         if space && rng.chance(1, 3) {
             s.push(' ');
         }
@@ -347,6 +377,11 @@ const MC_TOK: [&str; 18] = [
 const AT_TOK: [&str; 22] = [
     "no-loop", "lock-on-active", "rule", "rule x", "salience 5", "agenda-group \"g\"", "\"no-loop\"", "x", "-", " ", "_", "é", "\"",
     "activation-group \"a b\"", "no-loop1", "xno-loop", "rulelock-on-active", "no-loop-", "\"rule\"", "true", "lock-on-active,", "\u{1}0\u{2}",
+];
+/// the body of the literal of `SetWorkflowData("…")`: key, `=`, value forms, placeholder-looking pieces (no `"`, no line break)
+const WF_TOK: [&str; 34] = [
+    "k", "=", "v", " ", "1", "true", "null", "A.b", "+", "[", "]", ",", "'", "é", "\u{a0}", "\u{1}0\u{2}", "\u{1}1\u{2}", "\u{1}2\u{2}", "\u{1}7\u{2}",
+    "\u{1}", "\u{2}", "0", "99999999999999999999", ";", ")", "(", "}", "-5", "2.5", "x y", "stage", "\u{1}18446744073709551616\u{2}", "//", "日",
 ];
 const STREAM_TOK: [&str; 30] = [
     "ev", ":", " ", "T", "from", "stream", "(", ")", "\"", "s", "over", "window", ",", "5", "min", "hours", "ms", "sliding", "tumbling",
@@ -401,7 +436,35 @@ fn exec(case: &str) -> String {
 // ------------------------------------------------------------------------------------------------
 // generators
 // ------------------------------------------------------------------------------------------------
-const MB: [&str; 14] = ["é", "ß", "日", "本", "😀", "²", "٣", "\u{a0}", "\u{3000}", "\u{2028}", "ñ", "Ω", "\u{fffd}", "\u{85}"];
+const MB: [&str; 30] = [
+    "é", "ß", "日", "本", "😀", "²", "٣", "\u{a0}", "\u{3000}", "\u{2028}", "ñ", "Ω", "\u{fffd}", "\u{85}", "\u{2003}", "\u{1680}", "\u{202f}",
+    "\u{2029}", "\u{200b}", "\u{feff}", "（", "）", "＂", "＝", "＆", "｜", "！", "，", "\u{b}", "\u{c}",
+];
+/// white space other than blank / tab / line break: multi-byte Unicode White_Space (char::is_whitespace: NBSP, NEL, EM SPACE,
+/// IDEOGRAPHIC SPACE, LINE/PARAGRAPH SEPARATOR, OGHAM SPACE MARK, THIN SPACE, NARROW NBSP, MEDIUM MATHEMATICAL SPACE) and the ASCII VT / FF
+/// (white space for `trim`, not for the regex engine's `\s` nor for nom's multispace)
+const UWS: [&str; 12] =
+    ["\u{a0}", "\u{85}", "\u{2003}", "\u{3000}", "\u{2028}", "\u{2029}", "\u{1680}", "\u{2009}", "\u{202f}", "\u{205f}", "\u{b}", "\u{c}"];
+/// the four the seeded change names: 2-byte and 3-byte white space
+const UWS_MAIN: [&str; 4] = ["\u{a0}", "\u{85}", "\u{2003}", "\u{3000}"];
+/// multi-byte characters that LOOK like white space or like ASCII syntax but are neither: ZERO WIDTH SPACE, BOM / ZWNBSP, WORD JOINER,
+/// MONGOLIAN VOWEL SEPARATOR, fullwidth parentheses / quotes / operators / separators
+const USEP: [&str; 20] = [
+    "\u{200b}", "\u{feff}", "\u{2060}", "\u{180e}", "（", "）", "＂", "＇", "＝", "＆", "｜", "！", "＋", "，", "；", "：", "｛", "｝", "＜", "．",
+];
+/// numbers at and beyond every integer width the parsers convert to (i32 / i64 / u64 = usize / f64), leading zeros, absurd lengths
+const NUMS: [&str; 20] = [
+    "0", "00", "007", "2147483647", "2147483648", "4294967295", "4294967296", "9223372036854775807", "9223372036854775808",
+    "18446744073709551615", "18446744073709551616", "18446744073709551617", "99999999999999999999", "999999999999999999999999999999",
+    "340282366920938463463374607431768211456", "00000000000000000000000000000000000007", "000000000000000000018446744073709551615",
+    "000000000000000000018446744073709551616", "1", "10",
+];
+/// placeholder-looking text (`MASK_START <index> MASK_END`) to be put INSIDE string literals: indices inside / beyond the table,
+/// beyond usize, signed, zero-padded, empty, unterminated, nested
+const PH: [&str; 16] = [
+    "\u{1}0\u{2}", "\u{1}1\u{2}", "\u{1}2\u{2}", "\u{1}7\u{2}", "\u{1}99\u{2}", "\u{1}18446744073709551615\u{2}", "\u{1}18446744073709551616\u{2}",
+    "\u{1}99999999999999999999999999999\u{2}", "\u{1}\u{2}", "\u{1}", "\u{2}", "\u{1}+1\u{2}", "\u{1}-1\u{2}", "\u{1}007\u{2}", "\u{1}3", "\u{1}1\u{1}9\u{2}\u{2}",
+];
 const EXPR_TOK: [&str; 50] = [
     "User.Age", "X", "a", "b1", "_x", "Order.Total", "true", "false", "null", "0", "1", "42", "3.14", "-7", "1.", "-", ".",
     "9223372036854775808", "==", "!=", ">=", "<=", ">", "<", "&&", "||", "!", "(", ")", "\"s\"", "\"a b\"", "\"", "'", "'q'",
@@ -414,7 +477,9 @@ const GRL_TOK: [&str; 60] = [
     "\"", "'", "==", "!=", ">=", "<=", ">", "<", "=", "+=", "&&", "||", "!", "+", "-", "*", "/", "%", "$", "?", " ", "\n",
     "//", "X", "1",
 ];
-const VALID_RULES: [&str; 8] = [
+const VALID_RULES: [&str; 10] = [
+    "rule \"WF\" salience 5 { when X.s == \"a b\" && Y.n > 2 then SetWorkflowData(\"stage=done\"); set_workflow_data(\"k 1=v w\"); Log(\"msg 1\"); CompleteWorkflow(\"wf\"); }",
+    "rule \"Calls\" no-loop { when f(\"p q\", 1) == 'r s' then $Car.setName(\"n 1\", 2); sendEmail(\"a@b\", 'Hi there', 3); Msg.t = \"Hello, \" + U.n + \"!\"; Tags += \"t=1\"; }",
     "rule \"CheckAge\" salience 10 {\n when\n  User.Age >= 18 && User.Country == \"US\"\n then\n  User.IsAdult = true;\n  Retract(\"User\");\n}",
     "rule R2 \"desc\" no-loop agenda-group \"g\" {\n when (A.x > 1 || B.y == \"s\") && !(C.z < 2.5)\n then A.x = A.x + 1; log(\"hi\");\n}",
     "rule \"Arr\" { when Product.tags contains \"e\" && X in [\"a\", 'b', 3] then Y += \"v\"; $Car.setSpeed($Car.Speed + 1); }",
@@ -424,12 +489,16 @@ const VALID_RULES: [&str; 8] = [
     "rule \"St\" { when login: LoginEvent from stream(\"logins\") over window(10 min, sliding) then X = 1; }",
     "rule \"MF\" { when Order.items count > 0 && Queue.tasks first $t && test(f(a, b)) && $T : Car( speedUp == true && speed < max ) then SetWorkflowData(\"k=v\"); }",
 ];
-const VALID_QUERIES: [&str; 3] = [
+const VALID_QUERIES: [&str; 4] = [
+    "query \"Nums\" {\n goal: eligible(?x) && Order.Total > 100\n strategy: breadth-first\n max-depth: 25\n max-solutions: 3\n enable-memoization: true\n on-failure: { LogMessage(\"no 1\"); }\n}",
     "query \"CheckVIP\" {\n    goal: User.IsVIP == true\n    strategy: depth-first\n    max-depth: 10\n    on-success: {\n        User.DiscountRate = 0.2;\n        LogMessage(\"VIP confirmed\");\n    }\n}",
     "query \"Q2\" {\n goal: (A.x == 1 && B.y != \"s)\") || C.z > 2\n when: X.ready == true\n enable-memoization: false\n}\nquery \"Q3\" { goal: Y == 2\n}",
     "query \"Q4\" { goal: f(\"a\\\"b\") == true\n max-solutions: 5\n}",
 ];
-const VALID_MISC: [&str; 8] = [
+const VALID_MISC: [&str; 11] = [
+    "NOT User.IsBanned == true",
+    "  NOT  (A == 1 || B == 2)  ",
+    "NOT\tX.y != \"a b\" && !Z",
     "(manager(?p) OR senior(?p))",
     "(A OR (B AND C) OR \"x OR y\")",
     "count(?x) WHERE employee(?x)",
@@ -586,6 +655,23 @@ fn robust_string(rng: &mut Rng) -> (String, &'static str) {
     if rng.chance(1, 16) {
         return (pick_soup(rng, &MASK_TOK, 14, false), "masktext");
     }
+    if rng.chance(1, 5) {
+        // a valid rule / query / goal / stream pattern with blanks, numbers or literal bodies swapped (all seven entry points see it)
+        let b: String = match rng.below(6) {
+            0 | 1 | 2 => rng.pick(&VALID_RULES).to_string(),
+            3 => rng.pick(&VALID_QUERIES).to_string(),
+            4 => rng.pick(&VALID_MISC).to_string(),
+            _ => {
+                let e = *rng.pick(&["Q", "X", "V", "S", "G"]);
+                rng.pick(&bases_for(e)).clone()
+            }
+        };
+        let mut s = swap_any(rng, &b, 39);
+        if rng.chance(1, 4) {
+            s = mutate(rng, &s, &GRL_TOK);
+        }
+        return (s, "swapped");
+    }
     match rng.below(10) {
         0 | 1 => (raw_lossy(rng), "raw"),
         2 | 3 => (soup(rng, &GRL_TOK, 40), "soup"),
@@ -637,6 +723,308 @@ fn value_payload(rng: &mut Rng) -> String {
     s
 }
 
+// ------------------------------------------------------------------------------------------------
+// structured mutations of VALID inputs: white space, numbers, string-literal bodies
+// ------------------------------------------------------------------------------------------------
+/// byte ranges of the ASCII blanks (blank, tab, CR, LF), one range per character
+fn blank_slots(s: &str) -> Vec<(usize, usize)> {
+    s.char_indices().filter(|(_, c)| matches!(c, ' ' | '\t' | '\n' | '\r')).map(|(i, _)| (i, i + 1)).collect()
+}
+/// byte ranges of the maximal ASCII digit runs (every numeric position of the grammar the text belongs to)
+fn digit_slots(s: &str) -> Vec<(usize, usize)> {
+    let b = s.as_bytes();
+    let mut v = Vec::new();
+    let mut i = 0;
+    while i < b.len() {
+        if b[i].is_ascii_digit() {
+            let a = i;
+            while i < b.len() && b[i].is_ascii_digit() {
+                i += 1;
+            }
+            v.push((a, i));
+        } else {
+            i += 1;
+        }
+    }
+    v
+}
+/// byte ranges of the string-literal BODIES (between a quote character and the next same quote on the same line; `\"` is skipped
+/// the way the query grammar does)
+fn literal_slots(s: &str) -> Vec<(usize, usize)> {
+    let b = s.as_bytes();
+    let mut v = Vec::new();
+    let mut i = 0;
+    while i < b.len() {
+        if b[i] == b'"' || b[i] == b'\'' {
+            let q = b[i];
+            let a = i + 1;
+            let mut j = a;
+            while j < b.len() && b[j] != q && b[j] != b'\n' {
+                j += if b[j] == b'\\' && j + 1 < b.len() && b[j + 1] != b'\n' { 2 } else { 1 };
+            }
+            if j < b.len() && b[j] == q {
+                v.push((a, j));
+                i = j + 1;
+                continue;
+            }
+        }
+        i += 1;
+    }
+    v
+}
+fn subst(s: &str, slot: (usize, usize), rep: &str) -> String {
+    format!("{}{}{}", &s[..slot.0], rep, &s[slot.1..])
+}
+/// a placeholder-looking piece put inside the literal body `slot`: 0 replace the body, 1 append, 2 prepend, 3 after the first `=`
+/// of the body (the value part of `SetWorkflowData("key=value")`, which is unmasked twice), 4 in the middle
+fn lit_ph(s: &str, slot: (usize, usize), ph: &str, mode: usize) -> String {
+    let body = &s[slot.0..slot.1];
+    let new = match mode {
+        0 => ph.to_string(),
+        1 => format!("{}{}", body, ph),
+        2 => format!("{}{}", ph, body),
+        3 => match body.find('=') {
+            Some(p) => format!("{}{}{}", &body[..=p], ph, &body[p + 1..]),
+            None => format!("k={}", ph),
+        },
+        _ => {
+            let cp = char_positions(body);
+            let m = cp[cp.len() / 2];
+            format!("{}{}{}", &body[..m], ph, &body[m..])
+        }
+    };
+    subst(s, slot, &new)
+}
+/// ASCII blanks replaced by unusual white space / look-alike separators: one blank, every blank by the same character, or each
+/// blank with probability 1/3 by a random one
+fn blank_swap(rng: &mut Rng, s: &str) -> String {
+    let slots = blank_slots(s);
+    if slots.is_empty() {
+        return format!("{}{}", s, rng.pick(&UWS));
+    }
+    let pickc = |rng: &mut Rng| if rng.chance(3, 4) { *rng.pick(&UWS) } else { *rng.pick(&USEP) };
+    match rng.below(3) {
+        0 => {
+            let sl = *rng.pick(&slots);
+            subst(s, sl, pickc(rng))
+        }
+        1 => {
+            let c = pickc(rng);
+            s.chars().map(|x| if matches!(x, ' ' | '\t' | '\n' | '\r') { c.to_string() } else { x.to_string() }).collect()
+        }
+        _ => s.chars().map(|x| if matches!(x, ' ' | '\t' | '\n' | '\r') && rng.chance(1, 3) { pickc(rng).to_string() } else { x.to_string() }).collect(),
+    }
+}
+/// a digit run of `max` bytes at most (a `when` leaf must stay short: F-C05h)
+fn big_number(rng: &mut Rng, max: usize) -> String {
+    let n = match rng.below(8) {
+        0 => "9".repeat(*rng.pick(&[19usize, 20, 21, 30, 64, 200, 400])),
+        1 => format!("{}{}", "0".repeat(*rng.pick(&[1usize, 17, 30, 100])), rng.pick(&NUMS)),
+        _ => rng.pick(&NUMS).to_string(),
+    };
+    if n.len() > max { n[..max].to_string() } else { n }
+}
+/// one or every digit run replaced by a boundary / absurd number; a text without digits gets one appended
+fn num_swap(rng: &mut Rng, s: &str, max: usize) -> String {
+    let slots = digit_slots(s);
+    if slots.is_empty() {
+        return format!("{} {}", s, big_number(rng, max));
+    }
+    if rng.chance(1, 4) {
+        let mut out = s.to_string();
+        for sl in slots.iter().rev() {
+            out = subst(&out, *sl, &big_number(rng, max));
+        }
+        out
+    } else {
+        let sl = *rng.pick(&slots);
+        subst(s, sl, &big_number(rng, max))
+    }
+}
+/// placeholder-looking text inside one (or every) string literal; a text without literal gets one
+fn lit_swap(rng: &mut Rng, s: &str) -> String {
+    let slots = literal_slots(s);
+    if slots.is_empty() {
+        return format!("{} \"{}\"", s, rng.pick(&PH));
+    }
+    if rng.chance(1, 5) {
+        let mut out = s.to_string();
+        for sl in slots.iter().rev() {
+            out = lit_ph(&out, *sl, *rng.pick(&PH), rng.below(5) as usize);
+        }
+        out
+    } else {
+        let sl = *rng.pick(&slots);
+        lit_ph(s, sl, *rng.pick(&PH), rng.below(5) as usize)
+    }
+}
+/// one of the three structured mutations (`max_num`: longest digit run)
+fn swap_any(rng: &mut Rng, s: &str, max_num: usize) -> String {
+    match rng.below(5) {
+        0 | 1 => blank_swap(rng, s),
+        2 => num_swap(rng, s, max_num),
+        3 => lit_swap(rng, s),
+        _ => {
+            let t = blank_swap(rng, s);
+            if rng.chance(1, 2) { num_swap(rng, &t, max_num) } else { lit_swap(rng, &t) }
+        }
+    }
+}
+
+/// valid inputs of every entry (the documented forms): the seeds of the structured mutations
+fn bases_for(e: &str) -> Vec<String> {
+    let v = |xs: &[&str]| xs.iter().map(|x| x.to_string()).collect::<Vec<_>>();
+    match e {
+        "X" => v(&[
+            "User.IsVIP == true && (Order.Amount > 1000 || !(X != \"a\\\"b\"))",
+            "a.b >= 3.14 || ?x == 'q r' && !flag",
+            "( A == 1 ) && ( B != \"two words\" )",
+        ]),
+        "Q" | "QV" => v(&[
+            "NOT User.IsBanned == true",
+            "  NOT  (A == 1 || B == 2)  ",
+            "NOT\tX.y != \"a b\" && !Z",
+            "NOT !Y",
+            "NOT NOT X == 1",
+            "User.IsVIP == true && Order.Amount > 1000",
+        ]),
+        "V" => v(&[
+            "Order.quantity * Order.price + 10 - \"a\" % 3 / 0",
+            "I + 1",
+            "( MX - 1 ) * 2",
+            "\"a b\" + S",
+            "F / 2.5 + Order.quantity % 7",
+        ]),
+        "D" | "DC" => v(&VALID_MISC[3..5]),
+        "G" | "GQ" => v(&VALID_QUERIES),
+        "A" => v(&VALID_MISC[5..7]),
+        "NH" | "NP" => v(&VALID_MISC[7..8]),
+        "S" | "SJ" => v(&STREAM_BASE),
+        "SS" => STREAM_BASE.iter().filter_map(|b| b.split_once("from").map(|x| format!("from{}", x.1))).collect(),
+        "SW" => STREAM_BASE.iter().filter_map(|b| b.split_once("over").map(|x| format!("over{}", x.1))).collect(),
+        "SD" => v(&["5 min", "18446744073709551615 hours", "30 seconds", "1 ms", "10 minutes", "2 hour"]),
+        "ST" => v(&["sliding", "tumbling ", "sliding, x"]),
+        "SC" => v(&["click.user_id == purchase.user_id", "purchase.timestamp > click.timestamp", "a.time <= b.time + 5"]),
+        "PU" => {
+            let mut b = v(&["\"ab\" \u{1}0\u{2} 'c' // x\n y /* z */ \"\u{1}1\u{2}\"", "a \"b c\" \u{1}1\u{2} d 'e=f' 12"]);
+            b.extend(v(&VALID_RULES)); // parse_rule on whole rules (no prediction: oracle only)
+            b
+        }
+        "PN" => v(&["Check Age 1", "a \u{1}0\u{2} b", "x = 1 y"]),
+        "AC" => v(&ACC_BASE),
+        "MC" => v(&[";; MODULE: SENSORS - x\n", ";; MODULE: A 1\n;; MODULE: B 2\n "]),
+        "AT" => v(&[
+            "no-loop lock-on-active salience 5",
+            "salience -10 agenda-group \"g 1\" no-loop true",
+            "date-effective \"2025-01-01\" lock-on-active activation-group 'a 2'",
+        ]),
+        "RV" | "RA" => v(&["\"a b\"", "[1, 2.5, \"x y\", 'z w']", "A.b + 1", "true", " 42 ", "-7.25", "x_1", "\"Hello, \" + U.n + \"!\"", "'k=v 1'"]),
+        "WF" | "WG" => v(&[
+            "stage=done", "k 1=v w", "key = 42", "a=true", "k=[1, \u{1}7\u{2}, x y]", "n=A.b + 1", "no equals", "=x", "k=", "é=日本 語", "k='q r'", "a=b=c 2",
+        ]),
+        "W" => v(&[
+            "User.Age >= 18 && User.Country == \"US\"",
+            "(A.x > 1 || B.y == \"s t\") && !(C.z < 2.5)",
+            "exists(Order.total > 100) && forall(Item.ok == true)",
+            "Order.items count > 0 && test(f(a, b)) && X in [\"a b\", 3]",
+            "accumulate(Order($amount: amount, status == \"completed\"), sum($amount))",
+        ]),
+        "R" | "M" => v(&VALID_RULES),
+        _ => vec![],
+    }
+}
+/// longest digit run a structured mutation may write: text that ends up in a `when` leaf stays short (F-C05h)
+fn max_num_for(e: &str) -> usize {
+    match e {
+        "R" | "M" | "W" | "PU" | "AC" | "RV" | "AT" | "PN" | "MC" | "WF" | "WG" => 39,
+        _ => 400,
+    }
+}
+const FAMILY_ENTRIES: [&str; 30] = [
+    "X", "Q", "QV", "V", "D", "DC", "G", "GQ", "A", "NH", "NP", "RV", "RA", "S", "SJ", "SC", "SD", "SW", "SS", "ST", "PU", "PN", "AC", "MC", "AT",
+    "WF", "WG", "R", "M", "W",
+];
+/// the systematic part: every blank of every valid input replaced by a multi-byte white space character (small entries: each of the
+/// four NBSP / NEL / EM SPACE / IDEOGRAPHIC SPACE; whole rules: one, rotating through all twelve), every blank at once, look-alike
+/// separators; every digit run replaced by every boundary number; every placeholder form inside every string literal
+fn family(out_all: &mut Vec<String>) {
+    let mut rot = 0usize;
+    let mut all: Vec<String> = Vec::new();
+    for e in FAMILY_ENTRIES {
+        let maxn = max_num_for(e);
+        for (bi, b) in bases_for(e).into_iter().enumerate() {
+            let big = WHOLE.contains(&e) && b.contains("rule");
+            let out = &mut Vec::new();
+            // (i) white space
+            let bl = blank_slots(&b);
+            for (i, sl) in bl.iter().enumerate() {
+                if big {
+                    // indentation runs: the first blank of a run and one in three of the others
+                    if i > 0 && bl[i - 1].1 == sl.0 && (i + rot) % 3 != 0 {
+                        continue;
+                    }
+                    rot += 1;
+                    out.push(mk_case(e, &subst(&b, *sl, UWS[rot % UWS.len()])));
+                } else {
+                    for c in UWS_MAIN {
+                        out.push(mk_case(e, &subst(&b, *sl, c)));
+                    }
+                    rot += 1;
+                    out.push(mk_case(e, &subst(&b, *sl, UWS[4 + rot % (UWS.len() - 4)])));
+                    out.push(mk_case(e, &subst(&b, *sl, USEP[rot % USEP.len()])));
+                }
+            }
+            for c in UWS_MAIN.iter().chain(["\u{2028}", "\u{b}", "\u{200b}", "\u{feff}"].iter()) {
+                let all: String = b.chars().map(|x| if matches!(x, ' ' | '\t' | '\n' | '\r') { c.to_string() } else { x.to_string() }).collect();
+                out.push(mk_case(e, &all));
+                // … and in front of / behind the whole input
+                out.push(mk_case(e, &format!("{}{}{}", c, b, c)));
+            }
+            // (ii) numbers
+            for sl in digit_slots(&b) {
+                for n in NUMS {
+                    if n.len() <= maxn {
+                        out.push(mk_case(e, &subst(&b, sl, n)));
+                    }
+                }
+                for k in [20usize, 30, 64, 400] {
+                    if k <= maxn {
+                        out.push(mk_case(e, &subst(&b, sl, &"9".repeat(k))));
+                        out.push(mk_case(e, &subst(&b, sl, &format!("{}7", "0".repeat(k)))));
+                    }
+                }
+            }
+            // (iii) placeholder-looking text inside string literals (the WF / WG payload IS the body of a literal)
+            if e == "WF" || e == "WG" {
+                for ph in PH {
+                    for mode in 0..5 {
+                        out.push(mk_case(e, &lit_ph(&b, (0, b.len()), ph, mode)));
+                    }
+                }
+            }
+            for sl in literal_slots(&b) {
+                let has_eq = b[sl.0..sl.1].contains('=');
+                for ph in PH {
+                    rot += 1;
+                    out.push(mk_case(e, &lit_ph(&b, sl, ph, if has_eq { [0usize, 1, 2, 4][rot % 4] } else { rot % 5 })));
+                    if has_eq || (big && b[..sl.0].ends_with("(\"")) {
+                        // the value part of a `key=value` literal / the first argument of a call: every form
+                        out.push(mk_case(e, &lit_ph(&b, sl, ph, 3)));
+                    }
+                }
+            }
+            // whole rules are expensive to parse: parse_rules sees every case, parse_with_modules and parse_rule a third each
+            if big && e != "R" {
+                let k = if e == "M" { bi % 3 } else { (bi + 1) % 3 };
+                all.extend(out.drain(..).enumerate().filter(|(i, _)| i % 3 == k).map(|(_, c)| c));
+            } else {
+                all.append(out);
+            }
+        }
+    }
+    out_all.extend(all);
+}
+
 fn gen(rng: &mut Rng, n: usize, _tier: &str) -> Vec<String> {
     let mut out = Vec::new();
     // exhaustive short strings over a tiny alphabet for the two most hazardous slicing kernels
@@ -679,25 +1067,45 @@ fn gen(rng: &mut Rng, n: usize, _tier: &str) -> Vec<String> {
             frontier = next;
         }
     }
+    // structured mutations of every valid input of every entry: white space, numbers, literal bodies
+    family(&mut out);
+    let entries: Vec<&str> = MODELLED.iter().chain(["R", "M", "W"].iter()).copied().collect();
     for _ in 0..n {
-        let e = *rng.pick(&MODELLED);
+        let e = *rng.pick(&entries);
+        let bases = bases_for(e);
+        if !bases.is_empty() && (WHOLE.contains(&e) && e != "PU" || rng.chance(1, 5)) {
+            // a valid input with blanks / numbers / literal bodies swapped, sometimes spliced as well
+            let b = rng.pick(&bases).clone();
+            let mut s = swap_any(rng, &b, max_num_for(e));
+            if rng.chance(1, 4) && !matches!(e, "RV" | "RA" | "WF" | "WG") {
+                s = mutate(rng, &s, if WHOLE.contains(&e) { &GRL_TOK } else { &EXPR_TOK });
+            }
+            // text that reaches the GRL parser: `when` leaves stay short (F-C05h is probed separately)
+            if e == "W" {
+                s = cap_when_leaves(&format!("when {}", s))[5..].to_string();
+            } else if matches!(e, "R" | "M" | "PU" | "AT" | "PN" | "AC" | "MC" | "RV" | "RA" | "WF" | "WG") {
+                s = cap_when_leaves(&s);
+            }
+            out.push(mk_case(e, &s));
+            continue;
+        }
         let s = match e {
             "V" if rng.chance(1, 2) => arith(rng),
-            "X" | "Q" | "V" => match rng.below(6) {
+            "X" | "Q" | "QV" | "V" => match rng.below(6) {
                 0 => chain(rng),
                 1 => mutate(rng, "User.IsVIP == true && (Order.Amount > 1000 || !(X != \"a\\\"b\"))", &EXPR_TOK),
                 2 => { let b = *rng.pick(&VALID_MISC); mutate(rng, b, &EXPR_TOK) },
                 _ => {
                     let s = soup(rng, &EXPR_TOK, 14);
-                    if e == "Q" && rng.chance(1, 4) { format!("NOT {}", s) } else { s }
+                    if e != "X" && e != "V" && rng.chance(1, 4) { format!("NOT{}{}", if rng.chance(1, 3) { *rng.pick(&UWS) } else { " " }, s) } else { s }
                 }
             },
             "D" | "DC" => match rng.below(3) {
-                0 => { let b = *rng.pick(&VALID_MISC[0..2]); mutate(rng, b, &EXPR_TOK) },
+                0 => { let b = *rng.pick(&VALID_MISC[3..5]); mutate(rng, b, &EXPR_TOK) },
                 _ => {
                     let mut s = String::new();
                     for _ in 0..rng.range(0, 8) {
-                        s.push_str(*rng.pick(&[" OR ", "OR", " ", "(", ")", "\"", "a", "b(c)", "é", "日", " OR", "OR ", " AND ", "😀"]));
+                        s.push_str(pick_u(rng, &[" OR ", "OR", " ", "(", ")", "\"", "a", "b(c)", "é", "日", " OR", "OR ", " AND ", "😀"]));
                     }
                     if e == "D" && rng.chance(2, 3) { format!("({})", s) } else { s }
                 }
@@ -707,28 +1115,28 @@ fn gen(rng: &mut Rng, n: usize, _tier: &str) -> Vec<String> {
                 1 => {
                     let mut g = String::new();
                     for _ in 0..rng.range(0, 8) {
-                        g.push_str(*rng.pick(&["a", " ", "(", ")", "\"", "\\", "\n", "é", "日", "==", "1", "}", "{", "😀", "goal:", "query"]));
+                        g.push_str(pick_u(rng, &["a", " ", "(", ")", "\"", "\\", "\n", "é", "日", "==", "1", "}", "{", "😀", "goal:", "query"]));
                     }
                     format!("query \"{}\" {{\n goal: {}\n strategy: depth-first\n}}", rng.pick(&["Q", "é", "a b"]), g)
                 }
                 _ => soup(rng, &GRL_TOK, 20),
             },
             "A" => match rng.below(3) {
-                0 => { let b = *rng.pick(&VALID_MISC[2..4]); mutate(rng, b, &EXPR_TOK) },
+                0 => { let b = *rng.pick(&VALID_MISC[5..7]); mutate(rng, b, &EXPR_TOK) },
                 _ => {
                     let mut s = String::new();
                     for _ in 0..rng.range(0, 9) {
-                        s.push_str(*rng.pick(&[" WHERE ", " AND ", "count", "SUM", "avg", "min", "Max", "first", "last", "(", ")", "?", "x", " ", "é", "日", "p(?x)", "K"]));
+                        s.push_str(pick_u(rng, &[" WHERE ", " AND ", "count", "SUM", "avg", "min", "Max", "first", "last", "(", ")", "?", "x", " ", "é", "日", "p(?x)", "K"]));
                     }
                     s
                 }
             },
             "NH" | "NP" => match rng.below(3) {
-                0 => mutate(rng, VALID_MISC[4], &EXPR_TOK),
+                0 => mutate(rng, VALID_MISC[7], &EXPR_TOK),
                 _ => {
                     let mut s = String::new();
                     for _ in 0..rng.range(0, 9) {
-                        s.push_str(*rng.pick(&[" WHERE ", "WHERE", "W", " AND ", "(", ")", "a(?x)", " ", "é", "日", "WHER", "E"]));
+                        s.push_str(pick_u(rng, &[" WHERE ", "WHERE", "W", " AND ", "(", ")", "a(?x)", " ", "é", "日", "WHER", "E"]));
                     }
                     s
                 }
@@ -738,7 +1146,7 @@ fn gen(rng: &mut Rng, n: usize, _tier: &str) -> Vec<String> {
                 _ => {
                     let mut s = String::new();
                     for _ in 0..rng.range(0, 14) {
-                        s.push_str(*rng.pick(&[
+                        s.push_str(pick_u(rng, &[
                             "ev", ":", " ", "T", "from", "stream", "(", ")", "\"", "s", "over", "window", ",", "5", "min", "hours", "ms",
                             "sliding", "tumbling", "18446744073709551615", "307445734561825861", "é", "\u{a0}", "sec", "\n", "_", "99999999999999999999",
                         ]));
@@ -770,10 +1178,14 @@ fn gen(rng: &mut Rng, n: usize, _tier: &str) -> Vec<String> {
                 0 => { let b = *rng.pick(&ACC_BASE); mutate(rng, b, &ACC_TOK) },
                 _ => pick_soup(rng, &ACC_TOK, 12, false),
             },
+            "WF" | "WG" => pick_soup(rng, &WF_TOK, 9, false).replace('"', "'").replace('\n', " "),
             "MC" => pick_soup(rng, &MC_TOK, 10, false),
             "AT" => pick_soup(rng, &AT_TOK, 6, true),
             _ => value_payload(rng), // RV, RA
         };
+        // any generated text: some ASCII blanks replaced by unusual white space
+        let s = if rng.chance(1, 10) && !matches!(e, "RV" | "RA") { blank_swap(rng, &s) } else { s };
+        let s = if matches!(e, "WF" | "WG") { s.replace('"', "'") } else { s };
         out.push(mk_case(e, &s));
     }
     out
@@ -988,6 +1400,10 @@ fn nesting(depths: &[usize]) {
     }
 }
 
+fn rng_free_pick<'a>(xs: &'a [&'a str], k: usize) -> &'a &'a str {
+    &xs[k % xs.len()]
+}
+
 fn main() {
     let args: Vec<String> = std::env::args().collect();
     match args.get(1).map(|s| s.as_str()) {
@@ -1009,6 +1425,43 @@ fn main() {
                 let r = GRLParser::parse_rules(&s).is_ok();
                 println!("growth {} {} {}", n, r, t0.elapsed().as_micros());
             }
+        }
+        Some("corpus2") => {
+            // the lines of corpus/C05/unicode_ws_bignum_litph.case: witnesses of three classes of situation (all fine on the unchanged tree)
+            println!("# C05 corpus: multi-byte white space after a keyword, numbers beyond usize in numeric attributes, placeholder-looking");
+            println!("# text inside string literals (printed by `c05 corpus2`); every line must yield ok/err on the unchanged tree");
+            println!("# NOT + multi-byte white space (QueryParser::parse / validate): a separator must never be skipped by a fixed byte offset");
+            for ws in UWS {
+                for e in ["Q", "QV"] {
+                    println!("{}", mk_case(e, &format!("NOT{}User.IsBanned == true", ws)));
+                }
+            }
+            println!("{}", mk_case("Q", "  NOT\u{a0}\u{a0}(A == 1 || B == 2)  "));
+            println!("{}", mk_case("Q", "\u{3000}NOT\u{3000}X == 1\u{3000}"));
+            println!("{}", mk_case("Q", "NOT\u{200b}X == 1"));
+            println!("{}", mk_case("Q", "NOT\u{feff}X == 1"));
+            println!("# max-depth / max-solutions: usize::MAX, usize::MAX + 1, 30 nines, leading zeros, 400 digits");
+            for n in ["18446744073709551615", "18446744073709551616", "999999999999999999999999999999", "000000000000000000000000000000000000007", &"9".repeat(400)] {
+                for key in ["max-depth", "max-solutions"] {
+                    let q = format!("query \"Q\" {{\n goal: X == 1\n {}: {}\n}}", key, n);
+                    println!("{}", mk_case("G", &q));
+                    println!("{}", mk_case("GQ", &format!("{}\nquery \"Q2\" {{ goal: Y == 2\n}}", q)));
+                }
+            }
+            println!("# other numeric positions: salience, window duration, ScheduleRule delay, placeholder index");
+            println!("{}", mk_case("R", "rule \"r\" salience 99999999999999999999 { when X == 1 then Y = 1; }"));
+            println!("{}", mk_case("R", "rule \"r\" { when X == 1 then ScheduleRule(18446744073709551616, \"n\"); }"));
+            println!("{}", mk_case("S", "e: T from stream(\"s\") over window(18446744073709551616 ms, sliding)"));
+            println!("{}", mk_case("SD", "999999999999999999999999999999 hours"));
+            println!("{}", mk_case("PU", "\"a\" \u{1}18446744073709551616\u{2} \u{1}000000000000000000000\u{2}"));
+            println!("# placeholder-looking text INSIDE a string literal; SetWorkflowData / set_workflow_data unmask their argument twice");
+            for ph in PH {
+                for f in ["SetWorkflowData", "set_workflow_data"] {
+                    let r = format!("rule \"r\" {{ when X == 1 then {}(\"stage={}\"); }}", f, ph);
+                    println!("{}", mk_case(*rng_free_pick(&["R", "M", "PU"], ph.len() + f.len()), &r));
+                }
+            }
+            println!("{}", mk_case("R", "rule \"r\" { when X == \"\u{1}7\u{2}\" then Log(\"\u{1}7\u{2}\"); $C.m(\"\u{1}8\u{2}\"); f(\"a=\u{1}9\u{2}\", '\u{1}5\u{2}'); Y = \"\u{1}6\u{2}\"; }"));
         }
         Some("one") => {
             // c05 one <E> <hex>  — debugging aid
